@@ -652,6 +652,9 @@ func (p *Prog) explicitReturns(f *ast.File) int {
 				rs.Results = vals
 				n++
 				if j < i {
+					// the statement now starts where the folded assignments started, so that positions inside
+					// the moved expressions still lie within it
+					rs.Return = list[j].Pos()
 					list = append(list[:j], list[i:]...)
 					i = j
 				}
@@ -917,6 +920,12 @@ func (p *Prog) spliceClosures(list []ast.Stmt, scope ast.Node) ([]ast.Stmt, int)
 		list = out
 		i--
 		n++
+	}
+	// a list that consists of one such block is the block's statements
+	if n > 0 && len(list) == 1 {
+		if b, ok := list[0].(*ast.BlockStmt); ok {
+			return b.List, n
+		}
 	}
 	return list, n
 }
